@@ -4,7 +4,7 @@ from __future__ import annotations
 import ast
 
 from .. import memo
-from ..flow import call_name, dotted, norm
+from ..flow import call_name, dotted, norm, writes_in
 from ..index import AnalysisError, walk_local
 from ..lib import (cfg_of, defs_of, edge_leads_only_to_raise, is_super_call, live, nodes_calling,
                    nodes_with, return_nodes, undominated, witness)
@@ -27,6 +27,29 @@ EXPLANATION = (
     "tries <system>_<name> first; to/ito_base_units use the same target. Does not decide the rule inversion "
     "arithmetic of System.from_definition, value preservation or idempotence.")
 
+
+
+def own_units_rule(ck, ix):
+    """A group's *own* units are exactly the names given to add_units minus those given to remove_units; they are
+    edited independently of the derived membership (which also contains inherited units that can go away later)."""
+    GO = "pint.facets.group.objects"
+    for q in ("Group.add_units", "Group.remove_units"):
+        f = ix.func(GO, q)
+        ck.analysed(f)
+        defs = defs_of(f)
+        ws = [(p, k, nd) for (p, k, nd) in writes_in(f.node) if p.startswith("self._unit_names")]
+        ck.check(bool(ws), "G-PROV", f"{q}|edits-own-units", f.loc(), "edits the group's own unit set", f"{q} no longer edits self._unit_names")
+        bad = set()
+        for n in walk_local(f.node):
+            if isinstance(n, ast.Attribute) and isinstance(n.value, ast.Name) and n.value.id == "self" and n.attr in ("members", "_computed_members", "_used_groups", "iter_used_groups"):
+                bad.add(n.attr)
+        ck.check(not bad, "G-PROV", f"{q}|independent-of-derived-membership", f.loc(), "own units edited without consulting derived membership",
+                 f"{q} consults self.{sorted(bad)[0] if bad else ''}: whether a name is recorded as the group's own unit must not depend on what it currently inherits (the inherited source can be removed later and the unit would silently leave the group)")
+        rets = [r for r in walk_local(f.node) if isinstance(r, ast.Return)]
+        ck.check(not rets, "G-DOM", f"{q}|no-early-exit", f.loc(rets[0]) if rets else f.loc(), "every given name is processed", f"{q} can return before processing every given name")
+        loops = [l for l in walk_local(f.node) if isinstance(l, ast.For) and norm(l.iter) == "unit_names"]
+        direct = any("unit_names" in norm(nd) for (_, _, nd) in ws)
+        ck.check(bool(loops) or direct, "G-PROV", f"{q}|every-given-name", f.loc(), "all given names are applied", f"{q} does not apply every name of unit_names")
 
 def run(ck, ix, tier):
     ck.rule("G-PROV", "the value reaching a sink derives from the named sources")
@@ -224,4 +247,5 @@ def run(ck, ix, tier):
         ids = cfg.nodes_for_ast(c)
         p = undominated(cfg, ids, guard)
         ck.check(p is None, "G-DOM", "System.__getattr__|private-names-rejected-first", fi.loc(c), "getattr_maybe_raise first", "attribute lookup before getattr_maybe_raise", witness(cfg, p))
+    own_units_rule(ck, ix)
     return EXPLANATION
